@@ -81,6 +81,10 @@ type nestEnv struct {
 	ext      bool // extended generators and oracles (see the head of this file)
 	coll     bool // keys collide on every digest level (hx.HashInputBucket)
 	mutated  bool // the last mutatePlain changed its container
+	// store-set oracles (nestedstores.go)
+	sw                                       *storeWatch
+	ancestorWriteReported, sameBytesReported bool
+	abandoned                                bool // nestfail.go: the history cannot be continued (counted there)
 }
 
 // hi is the hash-input provider of the program.
@@ -112,8 +116,11 @@ func (e *nestEnv) emitEffects() {
 			e.w.L("SLB MISSING(%s)", hx.IDStr(id))
 			continue
 		}
-		e.w.L("SLB %s", atree.VerifDumpSlab(s, hx.Describe))
+		d := atree.VerifDumpSlab(s, hx.Describe)
+		e.w.L("SLB %s", d)
+		e.noteStore(id, d)
 	}
+	e.closeStores(e.rec.Effs)
 	e.rec.Reset()
 }
 
@@ -199,7 +206,12 @@ func (e *nestEnv) keyStr(n *node, k hx.TV) string {
 	b := atree.VerifMapDigesterBuilder(n.mp)
 	digs, err := hx.DigestsWith(b, e.hi(), k)
 	if err != nil {
-		panic(err)
+		// the builder the library gave this map cannot digest a plain key: no request on the map can work
+		if e.st.HarnessErr == "" {
+			e.violation("*", fmt.Sprintf("the digester builder of map %d (container %s, as the library set it up) fails to digest a key: %v", n.h, n.vid, err))
+			e.st.HarnessErr = "nested: stopped, the digester builder of a map handed out by the library is unusable (see violation)"
+		}
+		return fmt.Sprintf("%d:%d@?", k.Size, k.Pay)
 	}
 	parts := make([]string, len(digs))
 	for i, d := range digs {
@@ -349,7 +361,11 @@ func runNestedProgram(e *nestEnv, nOps int) {
 		r := e.rng.Intn(100)
 		switch {
 		case r < 14:
-			e.opNewChild()
+			if e.ext && e.rng.Intn(6) == 0 {
+				e.opNewChildStandalone() // (nestedstores.go)
+			} else {
+				e.opNewChild()
+			}
 		case r < 50:
 			e.opMutate(false)
 		case r < 60:
@@ -1049,7 +1065,9 @@ func (e *nestEnv) opBoundaryWalk() {
 		return false
 	}
 	for i := 0; i < 800 && !inl() && hasPlain() && ok(); i++ {
-		e.mutatePlain(c, "C10")
+		if !e.landNear(c) { // exactly budget+1, then exactly the budget (nestedstores.go)
+			e.mutatePlain(c, "C10")
+		}
 	}
 	for i := 0; i < 3 && hasPlain() && ok(); i++ {
 		e.mutatePlain(c, "C10")
@@ -1593,14 +1611,19 @@ func (e *nestEnv) compareArray(path string, a *atree.Array, c *node) bool {
 	}
 	ok := true
 	i := 0
-	_ = a.IterateReadOnly(func(v atree.Value) (bool, error) {
-		if !e.compareValue(fmt.Sprintf("%s[%d]", path, i), v, c.elems[i]) {
+	err := a.IterateReadOnly(func(v atree.Value) (bool, error) {
+		if i >= len(c.elems) || !e.compareValue(fmt.Sprintf("%s[%d]", path, i), v, c.elems[i]) {
 			ok = false
 			return false, nil
 		}
 		i++
 		return true, nil
 	})
+	if ok && (err != nil || i != len(c.elems)) {
+		// (an enumeration that breaks off used to pass for a complete one)
+		e.violation("C10", fmt.Sprintf("%s (container %d): reading the elements through the parent stopped after %d of %d: %v", path, c.h, i, len(c.elems), err))
+		return false
+	}
 	return ok
 }
 
@@ -1622,7 +1645,9 @@ func (e *nestEnv) compareMap(path string, m *atree.OrderedMap, c *node) bool {
 		return false
 	}
 	ok := true
-	_ = m.IterateReadOnly(func(k, v atree.Value) (bool, error) {
+	met := 0
+	err := m.IterateReadOnly(func(k, v atree.Value) (bool, error) {
+		met++
 		kt, _ := k.(hx.TV)
 		want, has := c.kv[kt]
 		if !has {
@@ -1636,6 +1661,10 @@ func (e *nestEnv) compareMap(path string, m *atree.OrderedMap, c *node) bool {
 		}
 		return true, nil
 	})
+	if ok && (err != nil || met != len(c.kv)) {
+		e.violation("C10", fmt.Sprintf("%s (container %d): reading the entries through the parent stopped after %d of %d: %v", path, c.h, met, len(c.kv), err))
+		return false
+	}
 	return ok
 }
 
@@ -1658,6 +1687,34 @@ func (e *nestEnv) verifyRoot(when string) {
 	}
 	if err != nil {
 		e.violation("C10", when+": outermost container is not structurally valid: "+err.Error())
+		return
+	}
+	e.verifyWrapped(e.root, "C10", when)
+}
+
+// verifyWrapped: the library's VerifyArray / VerifyMap descend into *Array / *OrderedMap element values only
+// (map_verify.go verifyValue); a container under a WRAPPER (Some(child)) - inlined or referenced - and
+// everything below it is skipped.  Every wrapped container of the family of top is therefore verified through
+// its own handle (same slab objects), outermost first, so that the whole tree is covered.
+func (e *nestEnv) verifyWrapped(top *node, prop, when string) {
+	if !e.ext {
+		return
+	}
+	tic := func(a, b atree.TypeInfo) bool { return a == b }
+	for _, x := range e.nodes {
+		if !x.live || x.parent == nil || x.wrap == 0 || !inSubtree(x, top) {
+			continue
+		}
+		var err error
+		if x.kind == 'a' {
+			err = atree.VerifyArray(x.arr, e.addr, x.arr.Type(), tic, e.hi(), true)
+		} else {
+			err = atree.VerifyMap(x.mp, e.addr, x.mp.Type(), tic, e.hi(), true)
+		}
+		if err != nil {
+			e.violation(prop, fmt.Sprintf("%s: container %d (in container %d under %d wrapper(s), which the verifier of the outermost container does not look into) is not structurally valid: %v", when, x.h, x.parent.h, x.wrap, err))
+			return
+		}
 	}
 }
 
@@ -1975,30 +2032,36 @@ func (e *nestEnv) opRejected() {
 	before, beforeTree := e.storageImage(), e.dumpExcept(nil, len(e.nodes))
 	var err error
 	wantKind := "IndexOutOfBounds:User"
+	var names []any // what the error must name: index and bounds / the key
 	if n.kind == 'a' {
 		switch e.rng.Intn(4) {
 		case 0:
 			i := len(n.elems) + e.rng.Intn(3)
 			w.L("OP arem h=%d i=%d", n.h, i)
 			_, err = n.arr.Remove(uint64(i))
+			names = []any{i, 0, len(n.elems)}
 		case 1:
 			i := len(n.elems) + e.rng.Intn(3)
 			v := e.plain(0)
 			w.L("OP aset h=%d i=%d v=%d:%d", n.h, i, v.Size, v.Pay)
 			_, err = n.arr.Set(uint64(i), v)
+			names = []any{i, 0, len(n.elems)}
 		case 2:
 			i := len(n.elems) + e.rng.Intn(3)
 			w.L("OP aget h=%d i=%d", n.h, i)
 			_, err = n.arr.Get(uint64(i))
+			names = []any{i, 0, len(n.elems)}
 		default:
 			i := len(n.elems) + 1 + e.rng.Intn(3)
 			v := e.plain(0)
 			w.L("OP ains h=%d i=%d v=%d:%d", n.h, i, v.Size, v.Pay)
 			err = n.arr.Insert(uint64(i), v)
+			names = []any{i, 0, len(n.elems)}
 		}
 	} else {
 		wantKind = "KeyNotFound:User"
 		k := hx.TV{Size: 9, Pay: uint64(500 + e.rng.Intn(80))}
+		names = []any{k}
 		if e.rng.Intn(2) == 0 {
 			w.L("OP mrem h=%d k=%s", n.h, e.keyStr(n, k))
 			_, _, err = n.mp.Remove(hx.CompareKey, e.hi(), k)
@@ -2015,6 +2078,8 @@ func (e *nestEnv) opRejected() {
 		w.L("OBS err:%s", hx.ErrKind(err))
 		if k := hx.ErrKind(err); k != wantKind {
 			e.violation("C18", fmt.Sprintf("a rejected request through the handle of nested container %d is reported as %s, expected %s", n.h, k, wantKind))
+		} else if d := hx.ErrNames(err, strings.SplitN(wantKind, ":", 2)[0], names...); d != "" {
+			e.violation("C18", fmt.Sprintf("a rejected request (%s) through the handle of nested container %d: %s", e.w.LastOp, n.h, d))
 		}
 	}
 	if eff := hx.NetEffect(e.rec.Effs); eff != "-" {
@@ -2052,6 +2117,8 @@ func (e *nestEnv) checkDetached() {
 		}
 		if err != nil {
 			e.violation("C11", fmt.Sprintf("detached container %d is not a structurally valid standalone value: %v", d.h, err))
+		} else {
+			e.verifyWrapped(d, "C11", fmt.Sprintf("detached container %d", d.h))
 		}
 	}
 }
